@@ -8,43 +8,62 @@ from vlib.shrink import ddmin
 META = {
     'level_text': 'Proved for ALL accepted runs of the transaction model (= all schedules of any number of callers, all device behaviours, all '
                   'non-decreasing clocks; the model is an acceptor of time-stamped event sequences with one event per primitive on shared '
-                  'state and per-caller program counters following io.py): lock_exclusive; multicomm_atomic (+ monitor soundness); '
-                  'stale_discarded_run, reply_pairing_run and reply_own_ret (every reply completed / returned is the first line or first rlen '
-                  'bytes of what ARRIVED AFTER one of the caller\'s own sends of that call; under in-order answers it is the device\'s answer); '
-                  'delays_honoured_run and delays_honoured_return; fails_within_timeout_run (an empty recv of the read loop ends at most one '
-                  'recv period after the time-out or the last data); state_visible_run; reconnect_rate_limited (under AttemptsAtomic = the effect '
-                  'of accessLock, a monitored clause with proved monitor soundness); callbacks_once_run (after a reconnect the caller\'s next '
-                  'events are the runs of the registered callbacks, each once, in order).  Proved for all inputs: framing_chunk_independent '
-                  '(+_bytes, _eq_unchunked) for AsynConn.readline/readbytes; polling_resumes_partial (trigger_all makes every polled module due).  '
-                  'state_visible_fails: the clause "is_connected is not set back to true without a connect" is FALSE for the code that exists '
-                  '(recorded finding, counter-run proved).  Every clause is judged by its Lean monitor on every run of the real '
-                  'StringIO/BytesIO under the deterministic scheduler, and every run is replayed through the model (0 rejected events).',
+                  'state and per-caller program counters following io.py, INCLUDING the identification made on every connect (checkHWIdent: '
+                  'one communicate per entry, retry of the first, close on mismatch, a reconnect from within an identification request) and '
+                  'replies of variable length (getFullReply -> readBytes)): lock_exclusive; multicomm_atomic (+ monitor soundness); '
+                  'exchange_atomic (+ monitor soundness): between the send of a command or identification request and every recv reading its '
+                  'reply - the part read by getFullReply included - no other caller touches the connection; closed_visible_run: a caller that '
+                  'drops the connection announces is_connected=false before it returns.  For all accepted runs of communicators WITHOUT '
+                  'identification: stale_discarded_run, reply_pairing_run (every reply completed is the first line / first rlen bytes of what '
+                  'ARRIVED AFTER the caller\'s own send, unless the connection was replaced or dropped since), reply_own_ret (replies of fixed '
+                  'length), delays_honoured_run and _return, fails_within_timeout_run (replies of fixed length), state_visible_run, '
+                  'reconnect_rate_limited (under AttemptsAtomic, a monitored clause with proved monitor soundness), callbacks_once_run.  '
+                  'Step level (any configuration): reconnect_mark_kept_partial (no step clears the reconnect mark), '
+                  'callbacks_after_ident_partial, ident_failed_partial, variable_reply_partial and the *_partial guards.  Proved for all inputs: '
+                  'framing_chunk_independent (+_bytes, _eq_unchunked); polling_resumes_partial.  state_visible_fails: "is_connected is not set '
+                  'back to true without a connect" is FALSE for the code that exists (recorded finding, counter-run proved).  Every clause is '
+                  'judged by its Lean monitor on every run of the real StringIO/BytesIO under the deterministic scheduler (every access of a '
+                  'thread to shared state is a scheduling point), and every run is replayed through the model (0 rejected events).',
     'level_note': 'Trusted: Lean kernel + axioms propext/Classical.choice/Quot.sound; the scripted device and FakeConn (lowest AsynConn layer: '
-                  'recv/send/flush_recv) replace sockets, select and kernel buffering; the run-level theorems for replies are stated at the event '
-                  'that completes a reply (model state), their link to the `ret`-window form of the monitors is by the model\'s `ret` guard, not '
-                  'a separate theorem (the `*_statement` definitions keep the monitor forms); polling_resumes is judged on the real poll thread only.',
+                  'recv/send/flush_recv) replace sockets, select and kernel buffering; the run-level theorems are stated at the events where '
+                  'the facts arise, their link to the `ret`-window form of the monitors is by the model\'s `ret` guard, not a separate theorem '
+                  '(the `*_statement` definitions keep the monitor forms); with an identification configured the run-level theorems about '
+                  'replies, delays, time-outs, rate limit and callbacks are NOT proved (only lock/exchange atomicity, closed_visible and the '
+                  'step-level facts) - these runs are covered by the monitors and the correspondence; polling_resumes is judged on the real poll '
+                  'thread only.',
     'trusted': [
-        'FakeConn.recv blocks at most AsynConn.timeout (1 s) and returns one device chunk at a time; flush_recv drains what has arrived (as AsynTcp)',
+        'FakeConn.recv blocks at most AsynConn.timeout (1 s) and returns one device chunk at a time; flush_recv drains what has arrived (as AsynTcp); '
+        'a connection closed on the host side by another thread makes recv/send raise (as a socket that was shut down)',
         'no byte arrives between the end of flush_recv and the send (same virtual instant)',
         'the virtual clock of vlib.sched (one tick per clock read); clock slack of 300 us per step in the time clauses',
-        'instrumentation from outside: lock proxy, time proxy of frappy.io, wrappers of check_connection/doPoll/registerReconnectCallback, '
-        'parameter callback on is_connected',
-        'the model has no accessLock: AttemptsAtomic is a hypothesis of reconnect_rate_limited and a monitored clause on the implementation',
+        'instrumentation from outside: lock proxies (_lock, accessLock), time proxy of frappy.io, wrappers of check_connection/doPoll/'
+        'registerReconnectCallback/checkHWIdent, parameter callback on is_connected, a BytesIO subclass whose getFullReply reads the rest of a reply',
+        'the model has no accessLock: AttemptsAtomic is a hypothesis of reconnect_rate_limited and a monitored clause on the implementation; a refused '
+        'non-blocking acquisition of accessLock is the event `busy`',
+        'identification patterns are literal prefixes followed by wildcards (`prefix.*`, `p r e ?? ??`)',
+        'no scheduling point between the update is_connected=True and the test of the reconnect mark that follows it (updateLock does not yield when it is given back; the model decides about the '
+        'callbacks at that event); the accesses of `_last_error` are scheduling points only in the `yattr` scenario, which is judged by the monitors only',
     ],
     'modelled_not_verified': [
         'sockets / serial lines / select (AsynTcp, AsynSerial)',
-        'checkHWIdent (identification), wait_before with an end-of-line inside a command (several sends per communicate)',
+        'wait_before with an end-of-line inside a command (several sends per communicate)',
         'write_is_connected from a client, the generic read wrapper of modulebase (only its late announce of is_connected is modelled)',
         'the real poll thread (only polling_resumes is judged on it)',
+        'with identification: run-level theorems other than lock_exclusive / multicomm_atomic / exchange_atomic / closed_visible_run',
     ],
     'assumptions': [
         'reply_pairing: in the window of a command the device sends nothing but its answer to that command (a late reply that arrives after '
         'the next send is indistinguishable from a reply and outside the statement)',
-        'fails_within_timeout: bound = max(send + timeout, last byte of the device in the window) + one recv period + delay + wait_before; a device '
-        'that keeps trickling bytes without completing a reply is not "silent" and extends the wait (AsynConn checks the clock only after an empty recv)',
+        'fails_within_timeout: bound = max(start of the read + timeout, last byte of the device in the window) + one recv period + delay + wait_before, '
+        'where every readBytes of getFullReply starts a read of its own; a device that keeps trickling bytes without completing a reply is not '
+        '"silent" and extends the wait (AsynConn checks the clock only after an empty recv); the exchange of an identification request ends when '
+        'the lock is given back',
         'reconnect_rate_limited: attempts on behalf of communicate calls come >= pollinterval after the previous attempt of any origin; poll-driven '
         'attempts follow the poll schedule (the stricter "any two attempts" is evaluated as reconnect_rate_limited_all, informative only)',
-        'stale_discarded/reply_pairing theorems: no successful connect between the send and the completion of the reply',
+        'stale_discarded/reply_pairing theorems: no successful connect and no closeConnection between the send and the completion of the reply',
+        'callbacks_once: a reconnect with an identification configured counts as successful when checkHWIdent has passed',
+        'state_visible: the update is_connected=false follows the detection before the detecting call returns - or another caller has dropped the '
+        'connection in between (then closed_visible applies to that caller)',
     ],
 }
 
@@ -89,6 +108,38 @@ class AccessLockProxy(LockProxy):
 
     def release(self):
         self.lock.release()
+
+
+def quiet_lock(sched, name):
+    """a re-entrant scheduler lock that is a scheduling point when it is taken, but not when it is given back.
+    Used for the module's updateLock: another thread may run BEFORE a parameter update (the lock is taken first); the
+    update itself (value stored, callbacks called) up to the next statement of the caller is one step, the scheduling
+    points after it are the explicit ones of the instrumentation"""
+    from vlib.sched import SLock
+
+    class QuietLock(SLock):
+        def acquire(self, blocking=True, timeout=-1):
+            who = self._who()
+            self.sched.yield_(('acquire', self.name))
+            if not self._free_for(who):
+                if not blocking:
+                    return False
+                ok = self.sched.block(('acquire.wait', self.name), lambda: self._free_for(who),
+                                      None if timeout is None or timeout < 0 else timeout)
+                if not ok:
+                    return False
+            self.owner = who
+            self.depth += 1
+            return True
+
+        def release(self):
+            self.depth -= 1
+            if self.depth == 0:
+                self.owner = None
+
+        __enter__ = acquire
+
+    return QuietLock(sched, name, reentrant=True)
 
 
 class YieldingAttr:
@@ -202,6 +253,7 @@ def run_case(case, policy=None, max_steps=20000):
             io = node.modules['io']
             io._lock = LockProxy(io._lock, log)
             io.accessLock = AccessLockProxy(io.accessLock, log)
+            io.updateLock = quiet_lock(s, 'updateLock')
             if case.get('ident'):
                 real_ident = io.checkHWIdent
 
@@ -225,7 +277,8 @@ def run_case(case, policy=None, max_steps=20000):
                     log.add('isconn', v=bool(v))
                     if not v:       # the new value is visible from here on: other threads may act on it.  (Not after
                         log.sync('isconn')      # `True`: connectStart reads `_last_error` next, and the model decides
-                                                # about the callbacks AT this event — see design_notes, "limits")
+                                                # about the callbacks AT this event — see design_notes, "limits";
+                                                # for the same reason updateLock does not yield when it is released)
             io.addCallback('is_connected', on_isconn)
             for name in case.get('callbacks') or ():
                 keep = not name.startswith('once')      # a callback returning False is removed after its first run
@@ -754,7 +807,7 @@ def run(ctx):
         s, out = run_case(case, policy)
         return s, out
 
-    nexplore = ctx.budget(110, 500)
+    nexplore = ctx.budget(110, 700)
     for ci, case in enumerate(catalogue()):
         n = 0
         for prefix, s, out in explore_levels(lambda pol, case=case: one(case, pol), 2, nexplore, rng):
@@ -764,12 +817,12 @@ def run(ctx):
     for c in corpus:
         s, out = one(c['case'], ReplayThenDefault(c.get('choices') or []))
         runs.append((c['case'], [x[1] for x in s.choices], out))
-    for _ in range(ctx.budget(380, 2500)):
+    for _ in range(ctx.budget(380, 3000)):
         case = gen_case(rng)
         for _ in range(2):
             s, out = one(case, RandomPolicy(rng, rng.choice([0.1, 0.3, 0.6])))
             runs.append((case, [c[1] for c in s.choices], out))
-    for _ in range(ctx.budget(12, 200)):
+    for _ in range(ctx.budget(12, 300)):
         case = realpoll_case(rng)
         s, out = one(case, RandomPolicy(rng, rng.choice([0.0, 0.2, 0.5])))
         runs.append((case, [c[1] for c in s.choices], out))
